@@ -244,7 +244,7 @@ def experiments(draw, n_max=6, units=("kg/(m2*h*kPa)",), exact_arrhenius=None, t
 def membrane(draw, n_max=4, units=("kg/(m2*h*kPa)",)):
     e1 = draw(experiments(n_max, units))
     e2 = draw(experiments(n_max, units))
-    return {"name": "M", "e1": e1["exps"], "e2": e2["exps"]}
+    return {"name": "M", "e1": e1["exps"], "e2": e2["exps"], "interleave": draw(st.booleans())}
 
 
 def simple_membrane(p1, p2, t=330.0, ea1=20000.0, ea2=30000.0):
